@@ -1,4 +1,5 @@
 import SSVerif.Model.FeBuf
+import SSVerif.Model.FeBufClosed
 import Driver.Util
 /-! driver sub-command `c06`: runs the front-end index model (M4) on the call schedules the
 harness `h_c06` runs on the real `fe_process_*`/`fe_end`.
@@ -7,7 +8,14 @@ harness `h_c06` runs on the real `fe_process_*`/`fe_end`.
     sig <N> <seed> <kind>                      -> sig <N>
     run <enc> <endroom> <len>:<l,l,…|-> …      -> run c=<dry>/<limit>/<consumed>/<frames>/<novf> … end=<n>/<total>/<left> canon=<0|1>
 
-`ssdriver c06 legacy` runs the model of the pinned tree (without the D25 repair). -/
+`ssdriver c06 legacy` runs the model of the pinned tree (without the D25 repair).
+
+Signals longer than `closedAbove` samples (the size-relation family of the check: chunk lengths around
+2^15, 2^16, k·2^16 …) are evaluated with the closed form `runClosed` (`Model/FeBufClosed.lean`) instead
+of the list model, which is quadratic in the chunk length: `C06_call_log_closed` proves that the call
+log, the `fe_end` count, the total frame count and `left = 0` are the same for every schedule, and
+`C06_frames_canonical` that the list model's frames are the canonical ones (`canon=1`).  Only for the
+repaired variant; `legacy` always runs the list model. -/
 namespace Driver.C06
 open SSVerif.FeBuf Driver
 
@@ -27,6 +35,9 @@ def parseSpec (s : String) : Option (Nat × List Nat) :=
     | none => none
   | _ => none
 
+/-- signals longer than this are evaluated with the closed form -/
+def closedAbove : Nat := 20000
+
 def showCall (l : CallLog) : String :=
   s!"c={l.dry}/{l.limit}/{l.consumed}/{l.frames}/{l.novf}"
 
@@ -44,6 +55,11 @@ def step (s : St) (ws : List String) : St × String :=
     match parseNat endroom, specs.mapM parseSpec with
     | some e, some sp =>
       if (sp.map (·.1)).sum ≠ s.n then (s, "bad-op partition does not sum to N") else
+      if s.cfg.fixed ∧ closedAbove < s.n ∧ 0 < e ∧ 0 < s.cfg.shift ∧ s.cfg.shift ≤ s.cfg.size then
+        let r := runClosed s.cfg sp
+        (s, "run " ++ sepBy " " (r.1.map showCall) ++ (if r.1.isEmpty then "" else " ")
+            ++ s!"end={r.2.1}/{r.2.2}/0 canon=1")
+      else
       match run s.cfg (chunksFrom 0 sp) e with
       | none => (s, "run error")
       | some (r, nend) =>
